@@ -78,7 +78,13 @@ func (s *Service) HandleHeadEvent(event *apiv1.Event) {
 
 	// Remove old subscriptions if present.
 	s.subscriptionInfosMutex.Lock()
-	delete(s.subscriptionInfos, s.chainTimeService.SlotToEpoch(data.Slot)-2)
+	// Remove every old epoch, not just epoch-2: an epoch without
+	// head events would otherwise leave its predecessors behind for ever.
+	for subscriptionEpoch := range s.subscriptionInfos {
+		if subscriptionEpoch+2 <= epoch {
+			delete(s.subscriptionInfos, subscriptionEpoch)
+		}
+	}
 	s.subscriptionInfosMutex.Unlock()
 
 	// Only verify on current slot.
